@@ -185,6 +185,10 @@ func vfModelOptions(m *Model, requestOpts map[string]any) (api.Options, error) {
 	if requestOpts["big"] != nil {
 		opts.NumCtx = 8192 // incompatible with a runner loaded with the default context
 	}
+	// an explicit use_mmap: the API decodes it into a fresh pointer for every request (equal values,
+	// different pointers)
+	mm := true
+	opts.UseMMap = &mm
 	return opts, nil
 }
 
@@ -377,6 +381,171 @@ func VerifSchedCfg(nModels int, nReq int, maxRunners int, queue int, flags int, 
 	s.loadedMu.Unlock()
 	for _, srv := range vfServers {
 		verifAssert(srv.closes == 1, "every-started-runner-shut-down-after-drain"+suffix)
+	}
+	verifReach("drained")
+}
+
+// every model fits next to the loaded ones (the evict-idle job: room is needed for the limit only)
+func vfEstimateFits(gpus []discover.GpuInfo, f *ggml.GGML, projectors []string, opts api.Options, numParallel int) llm.MemoryEstimate {
+	return llm.MemoryEstimate{TotalSize: 1}
+}
+
+// VerifC11EvictIdle: loaded-runner limit 2, three models. Request 0 (model a; keep-alive 0, 1 minute or
+// default) obtains its runner and HOLDS it; request 1 (model b) runs and finishes, leaving b idle;
+// request 2 (model c) arrives: room has to be made, b's runner is idle - the request must be served by
+// evicting b, without waiting for the busy runner.
+func VerifC11EvictIdle() {
+	vfNumGPU = 1
+	vfServers, vfMaxRunners = nil, 2
+	vfUnloadClients, vfEarlyCancel, vfUseGPU = false, false, false
+	vfDrain = make(chan struct{})
+	vfReplies = make([]int, 3)
+	vfGot, vfGotBig, vfGotKA, vfPingFailed = make([]*vfSrv, 3), make([]bool, 3), make([]int, 3), false
+	vfCancelled = make([]bool, 3)
+	envconfig.MaxRunners = func() uint { return 2 }
+	envconfig.MaxQueue = func() uint { return 4 }
+	envconfig.NumParallel = func() uint { return 1 }
+	envconfig.SchedSpread = func() bool { return false }
+	ctx := newVfCtx()
+	s := InitScheduler(ctx)
+	s.newServerFn = vfNewServer
+	s.getCpuFn = func() discover.GpuInfoList {
+		l := discover.GpuInfoList{{Library: "cpu"}}
+		l[0].FreeMemory, l[0].TotalMemory = 1<<30, 1<<30
+		return l
+	}
+	s.getGpuFn = s.getCpuFn
+	s.reschedDelay = 0
+	s.Run(ctx)
+	srv := &Server{sched: s}
+
+	kas := []*api.Duration{{Duration: 0}, {Duration: time.Minute}, nil}
+	ctx0 := newVfCtx()
+	r0, _, _, err0 := srv.scheduleRunner(ctx0, "a", nil, map[string]any{}, kas[verifChoice(3)])
+	if err0 != nil {
+		return // load / ping failures are other jobs' subject
+	}
+	holder, _ := r0.(*vfSrv)
+	holder.users++
+	ctx1 := newVfCtx()
+	r1, _, _, err1 := srv.scheduleRunner(ctx1, "b", nil, map[string]any{}, kas[1])
+	if err1 != nil {
+		return
+	}
+	idle, _ := r1.(*vfSrv)
+	verifNote("second-request-finishing")
+	ctx1.cancel() // request 1 is finished: b is idle, inside its keep-alive
+	verifHoldTimers(true)
+	verifQuiesce() // the finish event has been processed; no time passes
+	verifReach("one-busy-one-idle")
+	ctx2 := newVfCtx()
+	verifHoldTimers(true) // no keep-alive period elapses while the third request is being served
+	verifNote("third-request")
+	r2, _, _, err2 := srv.scheduleRunner(ctx2, "c", nil, map[string]any{}, kas[1])
+	verifHoldTimers(false)
+	if err2 == nil {
+		verifReach("third-model-served")
+		third, _ := r2.(*vfSrv)
+		verifAssert(third != nil && third.path == "/m/c", "runner-is-for-the-requested-model")
+		verifAssert(holder.closing == 0, "making-room-leaves-the-busy-runner-alone")
+		verifAssert(idle.closing > 0, "making-room-evicts-the-idle-runner")
+	}
+	ctx2.cancel()
+	holder.users--
+	ctx0.cancel()
+}
+
+// VerifC01HoldAndCancel: request 0 obtains the runner of model a and HOLDS it; request 1 asks for the
+// same model and its caller goes away at a scheduler-chosen moment (before, during or after the
+// hand-over). Whatever happens to request 1, the runner request 0 is using stays open and the
+// scheduler's reference count for it equals the number of requests in progress on it.
+func VerifC01HoldAndCancel(hold int) {
+	vfNumGPU = 1
+	vfServers, vfMaxRunners = nil, 1
+	vfUnloadClients, vfEarlyCancel, vfUseGPU = false, false, false
+	vfDrain = make(chan struct{})
+	vfReplies = make([]int, 2)
+	vfGot, vfGotBig, vfGotKA, vfPingFailed = make([]*vfSrv, 2), make([]bool, 2), make([]int, 2), false
+	vfCancelled = make([]bool, 2)
+	envconfig.MaxRunners = func() uint { return 1 }
+	envconfig.MaxQueue = func() uint { return 4 }
+	envconfig.NumParallel = func() uint { return 1 }
+	envconfig.SchedSpread = func() bool { return false }
+	ctx := newVfCtx()
+	s := InitScheduler(ctx)
+	s.newServerFn = vfNewServer
+	s.getCpuFn = func() discover.GpuInfoList {
+		l := discover.GpuInfoList{{Library: "cpu"}}
+		l[0].FreeMemory, l[0].TotalMemory = 1<<30, 1<<30
+		return l
+	}
+	s.getGpuFn = s.getCpuFn
+	s.reschedDelay = 0
+	s.Run(ctx)
+	srv := &Server{sched: s}
+	kas := []*api.Duration{{Duration: 0}, {Duration: time.Minute}, nil}
+
+	ctx0 := newVfCtx()
+	r0, _, _, err0 := srv.scheduleRunner(ctx0, "a", nil, map[string]any{}, kas[verifChoice(3)])
+	if err0 != nil {
+		return
+	}
+	holder, _ := r0.(*vfSrv)
+	inProgress := 0
+	if hold != 0 {
+		holder.users++
+		inProgress = 1
+		verifReach("first-request-in-progress")
+	} else {
+		// the first request is over: the runner is idle, inside its keep-alive period (if it has one)
+		ctx0.cancel()
+		verifHoldTimers(true)
+		verifQuiesce()
+		verifReach("first-request-finished")
+	}
+
+	ctx1 := newVfCtx()
+	second := 0 // requests in progress besides the holder
+	done := make(chan struct{}, 2)
+	go func() {
+		verifNote("caller-of-the-second-request-goes-away")
+		ctx1.cancel()
+		done <- struct{}{}
+	}()
+	go func() {
+		r1, _, _, err1 := srv.scheduleRunner(ctx1, "a", nil, map[string]any{}, kas[verifChoice(3)])
+		if err1 == nil && r1 != nil {
+			verifNote("second-request-got-the-runner")
+		}
+		ctx1.cancel() // the second request is over (served or not)
+		done <- struct{}{}
+	}()
+	<-done
+	verifHoldTimers(true)
+	verifQuiesce() // everything the cancellation set off has happened; no keep-alive period has elapsed
+	verifReach("second-request-over")
+	if hold != 0 {
+		verifAssert(holder.closing == 0, "runner-closed-while-a-request-uses-it")
+	}
+	s.loadedMu.Lock()
+	if r := s.loaded["/m/a"]; r != nil && r.llama == llm.LlamaServer(holder) {
+		r.refMu.Lock()
+		verifAssert(r.refCount == uint(inProgress+second), "reference-count-equals-the-requests-in-progress")
+		r.refMu.Unlock()
+	}
+	s.loadedMu.Unlock()
+	verifHoldTimers(false)
+	if hold != 0 {
+		holder.users--
+		ctx0.cancel()
+	}
+	// everything is over: keep-alive periods elapse, the scheduler drains
+	verifQuiesce()
+	s.loadedMu.Lock()
+	verifAssert(len(s.loaded) == 0, "nothing-reported-loaded-after-drain")
+	s.loadedMu.Unlock()
+	for _, srv := range vfServers {
+		verifAssert(srv.closes == 1, "every-started-runner-shut-down-after-drain")
 	}
 	verifReach("drained")
 }
